@@ -310,10 +310,11 @@ class Path:
         return c
 
     def assume(self, cond):
-        cond = z3.simplify(cond) if z3.is_expr(cond) else z3.BoolVal(bool(cond))
-        if z3.is_false(cond):
+        cond = cond if z3.is_expr(cond) else z3.BoolVal(bool(cond))
+        simp = z3.simplify(cond)
+        if z3.is_false(simp):
             raise PathEnd()
-        if z3.is_true(cond):
+        if z3.is_true(simp):
             return
         self.pc.append(cond)
         self._feas_add(cond)
@@ -325,10 +326,10 @@ class Path:
     def fork(self, cond) -> bool:
         if isinstance(cond, bool):
             return cond
-        cond = z3.simplify(cond)
-        if z3.is_true(cond):
+        simp = z3.simplify(cond)
+        if z3.is_true(simp):
             return True
-        if z3.is_false(cond):
+        if z3.is_false(simp):
             return False
         if self.idx < len(self.decisions):
             d = self.decisions[self.idx]
@@ -856,6 +857,8 @@ class Interp:
             for k, v in list(cur.f.items()):
                 cur.f[k] = self.havoc_value(v, f'{hint}_{k}')
             return cur
+        if cur is None:
+            return None
         if isinstance(cur, ZRec):
             cur.set(self.p.fresh(hint, cur.get().sort()))
             return cur
@@ -1530,7 +1533,26 @@ class Interp:
             if S.is_seq(obj):
                 rn = S.record_name(obj.sort().basis())
                 if rn and S.RECORD_MUTABLE.get(rn):
-                    i = self.norm_index(self.ev(n.slice), z3.Length(obj), n)
+                    idxv = self.ev(n.slice)
+                    if idxv == -1 and isinstance(idxv, int) and self.seq_from_end(obj, 1) is not None:
+                        # the last frame: a view that stays on the same absolute slot
+                        depth = len(self.seq_parts(obj))
+
+                        def _getl(depth=depth):
+                            parts = self.seq_parts(get())
+                            return parts[depth - 1].children()[0]
+
+                        def _setl(t, depth=depth):
+                            parts = self.seq_parts(get())
+                            parts[depth - 1] = z3.Unit(t)
+                            set_(self.seq_join(parts, obj.sort()))
+
+                        try:
+                            _getl()
+                            return ZRec(rn, _getl, _setl)
+                        except Exception:  # noqa: BLE001
+                            pass
+                    i = self.norm_index(idxv, z3.Length(obj), n)
                     i = z3.simplify(i)
 
                     def _set(t, i=i):
@@ -1545,6 +1567,36 @@ class Interp:
         if isinstance(n.slice, ast.Slice):
             return self.slice(obj, n.slice, n)
         return self.getitem(obj, self.ev(n.slice), n)
+
+    @staticmethod
+    def seq_parts(seq):
+        """flatten nested concatenations into parts"""
+        if z3.is_app(seq) and seq.decl().kind() == z3.Z3_OP_SEQ_CONCAT:
+            out = []
+            for c in seq.children():
+                out.extend(Interp.seq_parts(c))
+            return out
+        if z3.is_app(seq) and seq.decl().kind() == z3.Z3_OP_SEQ_EMPTY:
+            return []
+        return [seq]
+
+    @staticmethod
+    def seq_join(parts, sort):
+        if not parts:
+            return z3.Empty(sort)
+        return parts[0] if len(parts) == 1 else z3.Concat(*parts)
+
+    def seq_from_end(self, seq, k):
+        """(prefix, [last k elements]) when the last k parts are units, else None"""
+        if S.is_str(seq):
+            return None
+        parts = self.seq_parts(seq)
+        if len(parts) < k:
+            return None
+        tail = parts[len(parts) - k:]
+        if all(z3.is_app(t) and t.decl().kind() == z3.Z3_OP_SEQ_UNIT for t in tail):
+            return self.seq_join(parts[: len(parts) - k], seq.sort()), [t.children()[0] for t in tail]
+        return None
 
     def norm_index(self, idx, length, node, what='index'):
         """python index normalisation with bounds obligation; returns the 0-based index term."""
@@ -1565,6 +1617,10 @@ class Interp:
         if isinstance(obj, ZRec):
             obj = obj.get()
         if S.is_seq(obj):
+            if isinstance(idx, int) and not isinstance(idx, bool) and idx < 0:
+                st = self.seq_from_end(obj, -idx)
+                if st is not None:
+                    return st[1][0]
             i = self.norm_index(idx, z3.Length(obj), n)
             return obj[i]
         if S.is_str(obj):
@@ -1611,6 +1667,11 @@ class Interp:
             obj = obj.get()
         if S.is_val(obj):
             obj = self.as_seq(obj, n)
+        if S.is_seq(obj) and sl.lower is None and isinstance(sl.upper, ast.UnaryOp) and isinstance(sl.upper.op, ast.USub) \
+                and isinstance(sl.upper.operand, ast.Constant) and isinstance(sl.upper.operand.value, int):
+            st = self.seq_from_end(obj, sl.upper.operand.value)
+            if st is not None:
+                return st[0]
         if S.is_seq(obj) or S.is_str(obj) or isinstance(obj, str):
             s = self.as_str(obj) if (S.is_str(obj) or isinstance(obj, str)) else obj
             ln = z3.Length(s)
@@ -1894,6 +1955,8 @@ class Interp:
         if decl is None:
             self.oos(f'undeclared attribute {attr} of opaque {o.kind}', n)
         kind, sortname = decl
+        if kind == 'contract':
+            return BoundMeth(o, attr, self.w.registry.contracts[sortname])
         if kind == 'method':
             return BoundMeth(o, attr, PyConst('opaquemethod', sortname))
         return self.opaque_value(sortname, f'{o.kind}.{attr}', o.ident)
@@ -2125,7 +2188,7 @@ BUILTINS = {
     'len', 'isinstance', 'bool', 'int', 'str', 'min', 'max', 'range', 'all', 'any', 'getattr', 'hasattr',
     'callable', 'next', 'iter', 'enumerate', 'abs', 'repr', 'sorted', 'hash', 'issubclass', 'super', 'print', 'id',
     'ord', 'chr', 'zip', 'sum', 'old', 'int_ok', 'uint_ok', 'float_ok', 'implies', 'type', 'dict_with', 'dict_get',
-    'dict_has', 'seq_eq',
+    'dict_has', 'seq_eq', 'out_ok', 'out_frame', 'out_ret', 'out_cut', 'out_fail_frame',
 }
 
 
